@@ -96,3 +96,10 @@ package storage
 //@   at onFlush#1 havoc
 //@   same_critical_section [C05.callback_runs_inside_the_publish_critical_section] publishMu: onFlush
 //@   field_called_only_here [C05.flush_callback_is_invoked_only_by_publish] PartitionLog.onFlush
+
+// Closed world of writers of the in-flight state: only prepareFlush (sets it, and only when no flush is in flight) and
+// uploadFlush (clears it when its upload has ended) write flushing / flushingBatches. This is what makes the batches
+// that uploadFlush requeues or commits the ones its own prepareFlush drained.
+//@ type PartitionLog
+//@   writers flushing: prepareFlush, uploadFlush
+//@   writers flushingBatches: prepareFlush, uploadFlush
